@@ -1,6 +1,6 @@
 (** C15 - all forms of an operator give the same answer; clone / clone_from.
     ONLY statements pinned here; proofs live in Dashu.Forms.*. *)
-From Dashu Require Import Base.Prelude Forms.FormsSpec Forms.FormsProofs.
+From Dashu Require Import Base.Prelude Forms.FormsSpec Forms.FormsProofs Forms.FormsClone.
 From Dashu Require Import Base.Words Int.RingOps Int.RingOpsProofs Forms.FormsInt.
 From Dashu Require Import Float.RoundSpec Float.Contract Float.Model Float.AddModel Forms.FormsFloatSpec Forms.FormsFloat.
 Open Scope Z_scope.
@@ -198,3 +198,25 @@ Theorem C15_float_div_ctx_agrees : forall B p m s1 e1 s2 e2,
   fdiv_ctx B p m s1 e1 s2 e2 = fdiv_op B p m s1 e1 s2 e2.
 Proof. exact float_div_ctx_agrees. Qed.
 Print Assumptions C15_float_div_ctx_agrees.
+
+(** Clone for Repr on the abstract representation (capacity field, sign, words): clone() and
+    clone_from() onto ANY previous value copy sign and words, keep the invariant of a stored integer
+    and leave a compact buffer; lifted to every finite history of clone_from by induction *)
+Theorem C15_clone_ok : forall maxcap src, rinv maxcap src ->
+  let c := clone_asis maxcap src in
+  r_words c = r_words src /\ r_neg c = r_neg src /\ rinv maxcap c /\ compact maxcap c.
+Proof. exact clone_ok. Qed.
+Print Assumptions C15_clone_ok.
+
+Theorem C15_clone_from_ok : forall maxcap dst src, rinv maxcap dst -> rinv maxcap src ->
+  let c := clone_from_asis maxcap dst src in
+  r_words c = r_words src /\ r_neg c = r_neg src /\ rinv maxcap c /\ compact maxcap c.
+Proof. exact clone_from_ok. Qed.
+Print Assumptions C15_clone_from_ok.
+
+Theorem C15_clone_from_history : forall maxcap srcs dst, rinv maxcap dst ->
+  Forall (rinv maxcap) srcs -> srcs <> [] ->
+  let c := clone_from_history maxcap dst srcs in
+  r_words c = r_words (last srcs dst) /\ r_neg c = r_neg (last srcs dst) /\ rinv maxcap c /\ compact maxcap c.
+Proof. exact clone_from_history_ok. Qed.
+Print Assumptions C15_clone_from_history.
